@@ -60,6 +60,10 @@ EXTRA_AUDIT = [("HedVerif.Props.Closed", [
     "HedVerif.C07.cell_errors_kept_closed_raw",
     "HedVerif.C07.pipeline_example_closed_raw",
     "HedVerif.C07.delay_pipeline_example_closed_raw",
+    "HedVerif.C07.raw_defs_is_composition",
+    "HedVerif.C07.total_closed_rawD",
+    "HedVerif.C07.cell_issue_closed_rawD",
+    "HedVerif.C07.defs_pipeline_example_closed_raw",
 ])]
 
 SIG_MERGED = "C07-merged-row-label"
